@@ -467,6 +467,18 @@ def spec_list(tier, part):
 
 
 def shard(tier, i, n, seed):
+    try:
+        return _shard(tier, i, n, seed)
+    finally:
+        # the scratch file of run_files() (worker processes do not run atexit handlers)
+        if _TMP[0] is not None and _TMP[0][0] == __import__('os').getpid():
+            try:
+                __import__('os').unlink(_TMP[0][1])
+            except OSError:
+                pass
+
+
+def _shard(tier, i, n, seed):
     R = Result()
     signal.signal(signal.SIGVTALRM, _alarm)
     # a decoder that starts computing with a declared magnitude (2 ** huge) cannot be interrupted from Python and
